@@ -376,7 +376,18 @@ impl Payload {
                 (format!("tuple_of_str{n}"), format!("fn v_mk()->(str, int){{ (\"y\" * {n}, 3) }}"), n),
                 (format!("stack{n}"), format!("fn v_mk()->Stack<int>{{ range({n}).reduce(cast<Stack<int>>(stack()), (v_s: Stack<int>, v_i: int)->{{v_s.push(v_i)}}) }}"), 8 * n),
             ];
-            for (label, prog, payload) in progs {
+            // collections built from elements that are already alive: what the collection itself adds
+            let shared: Vec<(String, String, usize)> = if n >= 64 && n <= 5000 {
+                vec![
+                    (format!("set-colliding{n}"), format!("let v_src = range({n}).to_array();\nfn v_mk()->Set<int>{{ set((v_x: int)->{{v_x % 8}}, (v_a: int, v_b: int)->{{v_a == v_b}}).update(v_src) }}"), 8 * n),
+                    (format!("set-native{n}"), format!("let v_src = range({n}).to_array();\nfn v_mk()->Set<int>{{ set<int>().update(v_src) }}"), 8 * n),
+                    (format!("mapping-colliding{n}"), format!("let v_src = range({n}).to_array();\nfn v_mk()->Mapping<int, int>{{ mapping((v_x: int)->{{v_x % 8}}, (v_a: int, v_b: int)->{{v_a == v_b}}).update(v_src.to_generator().map((v_x: int)->{{(v_x, v_x)}})) }}"), 16 * n),
+                    (format!("array-of-shared{n}"), format!("let v_src = range({n}).to_array();\nfn v_mk()->Sequence<int>{{ v_src.map((v_x: int)->{{v_x}}).to_array() }}"), 8 * n),
+                ]
+            } else {
+                vec![]
+            };
+            for (label, prog, payload) in progs.into_iter().chain(shared.into_iter()) {
                 let mut sc = Scenario::standard(&prog, Limits::calibration());
                 sc.label = format!("payload:{label}:{payload}");
                 sc.ops = vec![
